@@ -101,7 +101,7 @@ class DiskObject:
 
 class DiskToken:
     """one token of a store, decoded without the library: .info (objfile.TokenInfo), .objects [DiskObject], .problems [text], .dir"""
-    def __init__(s): s.info = None; s.objects = []; s.problems = []; s.dir = None; s.backend = None
+    def __init__(s): s.info = None; s.objects = []; s.problems = []; s.dir = None; s.backend = None; s.dups = {}      # dups (db only): {(object id, type): number of rows}
     def master_key(s, pin, so=False):
         b = s.info and (s.info.so_blob if so else s.info.user_blob)
         return tokenkey.unwrap_master_key(b, pin) if b else None
@@ -131,7 +131,7 @@ def read_disk(tokendir, backend, scratch=None):
             out.append(t)
     else:
         for d, db in dbfile.read_store(tokendir, scratch):
-            t = DiskToken(); t.dir = d; t.backend = 'db'; t.info = db.info; t.problems += db.problems
+            t = DiskToken(); t.dir = d; t.backend = 'db'; t.info = db.info; t.problems += db.problems; t.dups = dict(db.dups)
             for oid, attrs in sorted(db.objects.items()): t.objects.append(DiskObject(attrs, 'object %d' % oid))
             out.append(t)
     return out
